@@ -7,7 +7,7 @@ func init() { register("C05", checkC05) }
 
 func checkC05(c *Ctx) {
 	r := c.R
-	r.Explanation = "Decides structural necessary conditions of C05 on cron/cron.go, on every path of the CFG. " +
+	r.Explanation = "Decides structural necessary conditions of C05 on package cron, on every path. Constructs are found by ROLE, not by unexported name: Cron's fields by type/method set (the []*Entry list, the bool flag, the mutex, the Add/Done/Wait counter, the channels by element type, the *time.Location), the scheduler loop as the function whose blocking select receives from the stop channel, helpers by what they do. Facts are established interprocedurally: a path-sensitive powerset flow over the package's functions (callee summaries, entry states from call sites, go statements handing the scheduler role over, callbacks of sort/slices run in the caller's state, branches on a tested flag or on a bool helper's result pruned per path), values followed through parameters, helper results, named results and temporaries. (In the clauses below runningMu/running/entries/jobWaiter/add/remove/snapshot/stop denote those roles.) " +
 		"(S1) Cron.entries and the Next/Prev of its elements are touched only by the scheduler goroutine (the function Start spawns and helpers reachable only from it) or, in API methods and shared helpers, with Cron.runningMu held on a branch where Cron.running was read false in the same critical section; the scheduler is started only from a critical section that read running==false and sets it true (one scheduler at a time). " +
 		"(S2) every send on Cron.add/remove/snapshot/stop happens with runningMu held on the running==true branch; Stop clears running on every path that sent the stop request; every return of the method that forwards a removal/an addition has either forwarded it or applied it to Cron.entries itself. " +
 		"(S3) every goroutine that invokes Job.Run is preceded by jobWaiter.Add(n>0) and does not call jobWaiter.Done before Run; the context Stop returns comes from context.WithCancel(Background) and its cancel is called only after jobWaiter.Wait. " +
@@ -22,7 +22,9 @@ func checkC05(c *Ctx) {
 		"interface calls (Schedule.Next, Logger, clock.Clock, clock.Timer) do not touch Cron.entries, Entry.Next/Prev or the Cron's channels",
 		"the clock is monotone: an instant obtained from clock.Now()/a timer channel earlier is <= the current instant",
 		"a timer's channel delivers an instant not earlier than the instant the timer was armed for",
-		"type-based field and lock identity (all Cron instances are one abstract Cron)")
+		"type-based field and lock identity (all Cron instances are one abstract Cron)",
+		"function values passed to functions of packages sort and slices are invoked only during that call, on the caller's goroutine",
+		"role resolution: if two fields of Cron have the same role-defining type, today's field name breaks the tie; no candidate => UNDECIDED")
 
 	a := newC05(c)
 
@@ -30,7 +32,7 @@ func checkC05(c *Ctx) {
 	r.Rule("C05.S4-bookkeeping", "the iteration that starts a job stores Prev = the compared Next and Next = Schedule.Next(clock reading), and starts it once", 3)
 	a.checkActivation()
 
-	r.Rule("C05.S1-ownership", "Cron.entries / Entry.Next / Entry.Prev touched only by the scheduler goroutine or under runningMu with running==false", 6)
+	r.Rule("C05.S1-ownership", "Cron.entries / Entry.Next / Entry.Prev touched only by the scheduler goroutine or under runningMu with running==false", 3)
 	r.Rule("C05.S1-single-scheduler", "the scheduler is started only after reading running==false and storing running=true in one runningMu section", 2)
 	a.checkOwnership()
 	r.Rule("C05.S2-routing", "sends on Cron.add/remove/snapshot/stop only under runningMu on the running==true branch", 4)
@@ -61,7 +63,7 @@ func checkC05(c *Ctx) {
 	a.checkArming()
 	a.checkAddCase()
 	a.checkDrain()
-	r.Rule("C05.S9-next-in-location", "every time reaching Entry.Schedule.Next in the scheduler was converted with In(Cron.location)", 4)
+	r.Rule("C05.S9-next-in-location", "every time reaching Entry.Schedule.Next in the scheduler was converted with In(Cron.location) (3 call sites today; a helper supplying the time adds one obligation)", 3)
 	a.checkLocation()
 
 	c.Fixture("c05act", func(fp *Prog, fr *Report) {
